@@ -242,6 +242,35 @@ pub fn judge(c: &Case, st: &mut Stats) -> Verdict {
         Ok(HeaderResult::V1(Ok(h))) if imp::addr1(&h.addresses) == *a && h.header == s => {}
         other => return fail("roundtrip:HeaderResult::parse", format!("V1(Ok) with {:?}", a), imp::short(&format!("{:?}", other))),
     }
+    // the line as it arrives on a connection - with the first bytes of the payload right behind it - parses back to the same
+    // value and the same header text through every text entry point (what follows an accepted header does not matter)
+    let d = c.digest();
+    if d % 3 == 0 {
+        let unit = ["GET / HTTP/1.1\r\nHost: example.org\r\n\r\n", "\u{65e5}\u{672c}\u{8a9e}\u{306e}\u{30c6}\u{30ad}\u{30b9}\u{30c8}", "\u{e9}", "\u{1f600}", "\u{20ac}uro "][(d / 3 % 5) as usize];
+        let pad = &"abc"[..(d / 15 % 4) as usize];
+        let mut with = s.clone();
+        with.push_str(pad);
+        while with.len() < 260 {
+            with.push_str(unit);
+        }
+        let want_text = s.as_str();
+        match imp::v1_str(&with) {
+            Ok(Ok(h)) if imp::addr1(&h.addresses) == *a && h.header == want_text => {}
+            other => return fail("roundtrip-with-payload:try_from(&str)", format!("Ok with {:?} and header text == the line", a), imp::short(&format!("{:?}", other))),
+        }
+        match imp::v1_bytes(with.as_bytes()) {
+            Ok(Ok(h)) if imp::addr1(&h.addresses) == *a && h.header == want_text && h.to_string() == want_text => {}
+            other => return fail("roundtrip-with-payload:try_from(&[u8])", format!("Ok with {:?} and header text == the line", a), imp::short(&format!("{:?}", other))),
+        }
+        match imp::v1_fromstr_header(&with) {
+            Ok(Ok(h)) if imp::addr1(&h.addresses) == *a && h.header == want_text => {}
+            other => return fail("roundtrip-with-payload:parse::<Header>", format!("Ok with {:?} and header text == the line", a), imp::short(&format!("{:?}", other))),
+        }
+        match imp::v1_fromstr_addr(&with) {
+            Ok(Ok(b)) if imp::addr1(&b) == *a => {}
+            other => return fail("roundtrip-with-payload:parse::<Addresses>", format!("Ok({:?})", a), imp::short(&format!("{:?}", other))),
+        }
+    }
     Ok(())
 }
 
@@ -306,6 +335,23 @@ pub fn judge_line(x: &Vec<u8>, st: &mut Stats) -> Verdict {
                         ));
                     }
                 }
+            }
+        }
+    }
+    // the other routes that accept this input print the same text
+    if let Ok(sx) = std::str::from_utf8(x) {
+        if let Ok(Ok(hs)) = imp::v1_str(sx) {
+            if let Ok(t) = crate::engine::guard(|| hs.to_string()) {
+                if t.as_bytes() != &x[..p] {
+                    return Err(Fail::new("header-display:try_from(&str)", crate::oracle::v1::shape(x), "v1::Header::try_from(&str) then to_string()", format!("{:?}", esc(&x[..p])), format!("{:?}", esc(t.as_bytes()))));
+                }
+            }
+        }
+    }
+    if let Ok(HeaderResult::V1(Ok(ha))) = imp::auto(x) {
+        if let Ok(t) = crate::engine::guard(|| ha.to_string()) {
+            if t.as_bytes() != &x[..p] {
+                return Err(Fail::new("header-display:HeaderResult::parse", crate::oracle::v1::shape(x), "HeaderResult::parse then to_string()", format!("{:?}", esc(&x[..p])), format!("{:?}", esc(t.as_bytes()))));
             }
         }
     }
@@ -412,7 +458,8 @@ pub fn run(r: &mut Runner) -> &'static str {
     r.random("c08.related-values", n, 96, &gen_related, &judge_related);
     let n = r.n(100_000, 2_000_000);
     r.random("c08.header-display", n, 200, &|t| {
-        let mut x = gen::gen_valid_line(t, false);
+        // near-miss lines are judged only if some route accepts them: they matter exactly when a route accepts too much
+        let mut x = if t.chance(1, 5) { gen::gen_v1_mutant(t).0 } else { gen::gen_valid_line(t, false) };
         if t.coin() {
             x.extend(gen::gen_trailer(t, false).0);
         }
